@@ -4,7 +4,7 @@
    (PpCond = transcription of the if/ifdef/ifndef/elif/else/endif cases of process_directive).
    Only the property theorems, each closed by [exact] and followed by Print Assumptions. *)
 From Coq Require Import String List Arith Bool.
-From MirV Require Import C09.PpCond C09.PpCondProofs C09.PpExpandFn C09.PpExpandFnProofs.
+From MirV Require Import C09.PpCond C09.PpCondProofs C09.PpExpandFn C09.PpExpandFnProofs C09.PpNumber.
 Import ListNotations.
 
 (* ---------------- conditional directives (C11 6.10.1p6) ---------------- *)
@@ -204,3 +204,30 @@ Theorem prefix_placemarker_white_space_refuted :
   = Out [TTok KStr (sp """a b""")].
 Proof. split; vm_compute; reflexivity. Qed.
 Print Assumptions prefix_find_args_single_eor_refuted.
+
+(* ---------------- pp-number lexing (C11 6.4.8, 6.4p4; round 3, wave 6) ---------------- *)
+
+(* The T_NUMBER loop of get_next_pptoken_1 (transcribed as lex_number / scan) on any character sequence: the token and the
+   rest are the input, nothing lost or reordered. *)
+Theorem lex_number_splits : forall s t b, lex_number s = Some (t, b) -> s = t ++ b.
+Proof. exact lex_number_splits_lemma. Qed.
+Print Assumptions lex_number_splits.
+
+(* The token is a pp-number of the C11 6.4.8 grammar (digit | . digit | pp-number digit | pp-number identifier-nondigit |
+   pp-number e/E/p/P sign | pp-number .), whatever the base prefix. *)
+Theorem lexed_token_is_pp_number : forall s t b, lex_number s = Some (t, b) -> ppnumber t.
+Proof. exact lexed_token_is_pp_number_lemma. Qed.
+Print Assumptions lexed_token_is_pp_number.
+
+(* Maximal munch: the character that follows the token cannot extend it to a pp-number; in particular a sign after
+   e/E/p/P always belongs to the number (`0xe+X` is one token, X is not a macro use). *)
+Theorem pp_number_maximal_munch : forall s t c b, lex_number s = Some (t, c :: b) -> ~ ppnumber (t ++ [c]).
+Proof. exact maximal_munch_lemma. Qed.
+Print Assumptions pp_number_maximal_munch.
+
+(* The base-aware scanner of seeded C09-v2 (after 0x only p/P, otherwise only e/E take a sign) ends `0xe+X` after `0xe`
+   although `0xe+` is a pp-number; the transcribed scanner takes the whole text. *)
+Theorem base_aware_scanner_refuted :
+  exists s t c b, lex_number2 s = Some (t, c :: b) /\ ppnumber (t ++ [c]) /\ lex_number s = Some (s, []).
+Proof. exact base_aware_scanner_refuted_lemma. Qed.
+Print Assumptions base_aware_scanner_refuted.
